@@ -9,7 +9,7 @@
 From Coq Require Import List NArith Arith Bool.
 From SNT Require Import Base.Outcome Automata.DfaData Automata.DfaDataProofs Automata.Tokenizer
   Automata.TokenizerRun Automata.TokenizerMunch Automata.TokenizerTheorems Automata.Reach Automata.ReachProofs
-  Decoder.Payload Decoder.PayloadProofs Decoder.PayloadOld Decoder.TermSizeProofs Decoder.Events
+  Decoder.Payload Decoder.PayloadProofs Decoder.PayloadOld Decoder.TermSizeProofs Decoder.TermcapProofs Decoder.Events
   Decoder.EventsProofs Decoder.EventsTheorems Gen.ProdDFA.
 Import ListNotations.
 Local Open Scope N_scope.
@@ -22,11 +22,13 @@ Definition ev_VL : cert := Eval vm_compute in find_cert event_dfa len_step 0 sea
 Definition ev_VT : cert := Eval vm_compute in find_cert event_dfa ts_step ts_m0 search_fuel.
 Definition cmd_VL : cert := Eval vm_compute in find_cert command_dfa len_step 0 search_fuel.
 Definition cmd_VT : cert := Eval vm_compute in find_cert command_dfa ts_step ts_m0 search_fuel.
+Definition ev_VC : cert := Eval vm_compute in find_cert event_dfa tc_step 0 search_fuel.
+Definition cmd_VC : cert := Eval vm_compute in find_cert command_dfa tc_step 0 search_fuel.
 Definition u8_V : cert := Eval vm_compute in find_cert utf8_dfa len_step 0 search_fuel.
 
-Lemma event_certs : certs_ok event_dfa event_matcher_ids ev_VL ev_VT = true.
+Lemma event_certs : certs_ok event_dfa event_matcher_ids ev_VL ev_VT ev_VC = true.
 Proof. vm_compute. reflexivity. Qed.
-Lemma command_certs : certs_ok command_dfa command_matcher_ids cmd_VL cmd_VT = true.
+Lemma command_certs : certs_ok command_dfa command_matcher_ids cmd_VL cmd_VT cmd_VC = true.
 Proof. vm_compute. reflexivity. Qed.
 Lemma utf8_cert : u8_cert_ok utf8_dfa u8_V = true.
 Proof. vm_compute. reflexivity. Qed.
@@ -35,26 +37,20 @@ Definition ev_payload := payload_at event_matcher_ids decmode_codes decstatus_co
 Definition cmd_payload := payload_at command_matcher_ids decmode_codes decstatus_codes.
 
 (* ------------------------------------------------------------------------- *)
-(* FULL STATEMENT (C02_total): as C02_total_partial below with `hex_only it` replaced by
-   "it is not IPanic".  What is missing: a certificate that every XTGETTCAP reply the automaton
-   accepts has hex fields of even length, so that hex_decode never evaluates pair[1] on a
-   one-element chunk (decoder.rs hex_decode, site_hex_pair).  Every other panic site of every
-   payload decoder is excluded for all inputs. *)
-
 (* TTYEventDecoder / TTYCommandDecoder, any byte string, any partition into reads (empty reads
    allowed): the fuelled loops terminate with Ok, the events are the leftmost-longest tokens,
    no event is the result of a panic, raw events are non-empty, and a further decode on an
    empty reader returns None. *)
-Theorem C02_total_partial_event : forall (chunks : list (list N)) (fuel : nat),
+Theorem C02_total_event : forall (chunks : list (list N)) (fuel : nat),
   (length (concat chunks) + 3 <= fuel)%nat ->
   exists s',
     tty_feed event_dfa ev_payload fuel (t_init event_dfa) chunks
       = Ok (fst (t_munch event_dfa ev_payload (concat chunks)), s') /\
     sbuf s' = snd (t_munch event_dfa ev_payload (concat chunks)) /\
     tty_decode event_dfa ev_payload s' [] = Ok (s', None, []) /\
-    Forall (fun t => match t with TItem it _ => hex_only it | TRaw sp => sp <> [] end)
+    Forall (fun t => match t with TItem it _ => no_panic it | TRaw sp => sp <> [] end)
            (fst (t_munch event_dfa ev_payload (concat chunks))).
-Proof. exact (tty_total event_dfa event_matcher_ids decmode_codes decstatus_codes ev_VL ev_VT event_certs). Qed.
+Proof. exact (tty_total event_dfa event_matcher_ids decmode_codes decstatus_codes ev_VL ev_VT ev_VC event_certs). Qed.
 
 Theorem C02_total_command : forall (chunks : list (list N)) (fuel : nat),
   (length (concat chunks) + 3 <= fuel)%nat ->
@@ -63,32 +59,25 @@ Theorem C02_total_command : forall (chunks : list (list N)) (fuel : nat),
       = Ok (fst (t_munch command_dfa cmd_payload (concat chunks)), s') /\
     sbuf s' = snd (t_munch command_dfa cmd_payload (concat chunks)) /\
     tty_decode command_dfa cmd_payload s' [] = Ok (s', None, []) /\
-    Forall (fun t => match t with TItem it _ => hex_only it | TRaw sp => sp <> [] end)
+    Forall (fun t => match t with TItem it _ => no_panic it | TRaw sp => sp <> [] end)
            (fst (t_munch command_dfa cmd_payload (concat chunks))).
-Proof. exact (tty_total command_dfa command_matcher_ids decmode_codes decstatus_codes cmd_VL cmd_VT command_certs). Qed.
-
-(* the command automaton registers no XTGETTCAP matcher: there the exclusion is complete *)
-Theorem C02_command_no_panic : forall w q site,
-  run N (d_start command_dfa) (d_delta command_dfa) w = Some q ->
-  d_accepting command_dfa q = true ->
-  item_of cmd_payload command_dfa q w <> Some (IPanic site).
-Proof.
-  intros w q site Hq Ha E.
-  destruct (item_no_panic command_dfa command_matcher_ids decmode_codes decstatus_codes cmd_VL cmd_VT
-              command_certs w q Hq Ha site E) as (_ & i & _ & Hi).
-  unfold command_matcher_ids in Hi. destruct (N.to_nat i) as [|[|[|k]]]; cbn in Hi; discriminate.
-Qed.
+Proof. exact (tty_total command_dfa command_matcher_ids decmode_codes decstatus_codes cmd_VL cmd_VT cmd_VC command_certs). Qed.
 
 (* every call of a payload decoder — including those whose result is replaced by a longer
-   match — is made on a string the automaton accepts, and on such strings no payload decoder
-   panics (pair[1] of hex_decode in the XTGETTCAP decoder left open) *)
-Theorem C02_payload_no_panic_partial : forall w q,
+   match — is made on a string the automaton accepts (C02_calls_accepted), and on such strings
+   no payload decoder panics: no slice or index out of range, no arithmetic overflow, no
+   hex_decode pair[1], no untagged accepting state, no matcher index out of range *)
+Theorem C02_payload_no_panic : forall w q,
   run N (d_start event_dfa) (d_delta event_dfa) w = Some q ->
   d_accepting event_dfa q = true ->
-  forall site, item_of ev_payload event_dfa q w = Some (IPanic site) ->
-  site = site_hex_pair /\
-  exists i, d_tag event_dfa q = Some (false, i) /\ nth_error event_matcher_ids (N.to_nat i) = Some 10.
-Proof. exact (item_no_panic event_dfa event_matcher_ids decmode_codes decstatus_codes ev_VL ev_VT event_certs). Qed.
+  forall site, item_of ev_payload event_dfa q w <> Some (IPanic site).
+Proof. exact (item_no_panic event_dfa event_matcher_ids decmode_codes decstatus_codes ev_VL ev_VT ev_VC event_certs). Qed.
+
+Theorem C02_payload_no_panic_command : forall w q,
+  run N (d_start command_dfa) (d_delta command_dfa) w = Some q ->
+  d_accepting command_dfa q = true ->
+  forall site, item_of cmd_payload command_dfa q w <> Some (IPanic site).
+Proof. exact (item_no_panic command_dfa command_matcher_ids decmode_codes decstatus_codes cmd_VL cmd_VT cmd_VC command_certs). Qed.
 
 Theorem C02_calls_accepted : forall (s : st N pitem) b q' w,
   Inv N pitem (d_start event_dfa) (d_delta event_dfa) (d_accepting event_dfa) (d_terminal event_dfa)
@@ -175,14 +164,14 @@ Theorem C02_old_code_refuted :
 Proof. vm_compute. repeat split; reflexivity. Qed.
 
 (* ------------------------------------------------------------------------- *)
-Check C02_total_partial_event : forall (chunks : list (list N)) (fuel : nat),
+Check C02_total_event : forall (chunks : list (list N)) (fuel : nat),
   (length (concat chunks) + 3 <= fuel)%nat ->
   exists s',
     tty_feed event_dfa ev_payload fuel (t_init event_dfa) chunks
       = Ok (fst (t_munch event_dfa ev_payload (concat chunks)), s') /\
     sbuf s' = snd (t_munch event_dfa ev_payload (concat chunks)) /\
     tty_decode event_dfa ev_payload s' [] = Ok (s', None, []) /\
-    Forall (fun t => match t with TItem it _ => hex_only it | TRaw sp => sp <> [] end)
+    Forall (fun t => match t with TItem it _ => no_panic it | TRaw sp => sp <> [] end)
            (fst (t_munch event_dfa ev_payload (concat chunks))).
 Check C02_utf8_decoder : forall chunks : list (list N),
   exists xs s', u8_feed utf8_dfa (u8_init utf8_dfa) chunks = Ok (xs, s') /\
